@@ -70,6 +70,7 @@ class Recorder:
 
     def __init__(self, capture_frames=True):
         self.agg_calls = []  # one dict per get_aggregate_prediction_intervals
+        self.unit_bounds = {}  # (estimand, alpha) -> unadjusted unit bounds as the unit stage computed them
         self.cur = None
         self.capture_frames = capture_frames
 
@@ -80,7 +81,14 @@ class Recorder:
         self.GM, self.GEM = GaussianModel, GaussianElectionModel
         self.o_fit, self.o__fit, self.o_counts = GaussianModel.fit, GaussianModel._fit, GaussianModel._get_n_units_per_group
         self.o_agg = GaussianElectionModel.get_aggregate_prediction_intervals
+        self.o_ub = GaussianElectionModel.get_unit_prediction_interval_bounds
         rec = self
+
+        def unit_bounds(self_, reporting_units, nonreporting_units, conf_frac, alpha, estimand):
+            out = rec.o_ub(self_, reporting_units, nonreporting_units, conf_frac, alpha, estimand)
+            # the property's "summed unadjusted unit bounds" are THIS estimand's, whatever the model object keeps
+            rec.unit_bounds[(estimand, alpha)] = (np.asarray(out.lower, dtype=float).copy(), np.asarray(out.upper, dtype=float).copy())
+            return out
 
         def fit(self_, conformalization_data, reporting_units, nonreporting_units, estimand, aggregate=[], alpha=0.9, reweight=False, top_level=True):
             ctx = rec.cur
@@ -140,8 +148,10 @@ class Recorder:
                 ctx["reporting"] = reporting_units.copy()
                 ctx["nonreporting"] = nonreporting_units.copy()
                 ctx["unexpected"] = unexpected_units.copy()
-                lo = self_.alpha_to_nonreporting_lower_bounds.get(alpha)
-                hi = self_.alpha_to_nonreporting_upper_bounds.get(alpha)
+                lo, hi = rec.unit_bounds.get((estimand, alpha), (None, None))
+                if lo is None:  # model driven without the unit stage under the recorder
+                    lo = self_.alpha_to_nonreporting_lower_bounds.get(alpha)
+                    hi = self_.alpha_to_nonreporting_upper_bounds.get(alpha)
                 ctx["unit_lo"] = None if lo is None else np.asarray(lo, dtype=float).copy()
                 ctx["unit_hi"] = None if hi is None else np.asarray(hi, dtype=float).copy()
             rec.cur = ctx
@@ -161,11 +171,14 @@ class Recorder:
         GaussianModel._fit = _fit
         GaussianModel._get_n_units_per_group = _get_n
         GaussianElectionModel.get_aggregate_prediction_intervals = agg
+        GaussianElectionModel.get_unit_prediction_interval_bounds = unit_bounds
         return self
 
     def __exit__(self, *a):
         self.GM.fit, self.GM._fit, self.GM._get_n_units_per_group = self.o_fit, self.o__fit, self.o_counts
         self.GEM.get_aggregate_prediction_intervals = self.o_agg
+        if "get_unit_prediction_interval_bounds" in self.GEM.__dict__:
+            del self.GEM.get_unit_prediction_interval_bounds  # inherited from ConformalElectionModel
 
 
 STAT_COLS = ["var_inflate", "mu_lower_bound", "mu_upper_bound", "sigma_lower_bound", "sigma_upper_bound"]
@@ -629,7 +642,7 @@ def random_election(rnd, district=False):
     return pre, cur, {"shape": shape, "district": district, "n": n, "n_reporting": int((pev == 100).sum())}
 
 
-def run_real(seed, boot_iterations=None, district=False, pis=(0.7, 0.9)):
+def run_real(seed, boot_iterations=None, district=False, pis=(0.7, 0.9), estimands=None):
     """One real gaussian estimate run through the public client under the recorder."""
     rnd = random.Random(seed)
     pre, cur, info = random_election(rnd, district)
@@ -638,7 +651,11 @@ def run_real(seed, boot_iterations=None, district=False, pis=(0.7, 0.9)):
     else:
         kw = dict(office="G", gut="precinct", aggregates=["postal_code", "county_fips", "unit"])
     with FastBoot(boot_iterations), Recorder(capture_frames=True) as rec:
-        synth.run_client(pre, cur, estimands=(EST,), pis=pis, thr=100, features=("x1",), pi_method="gaussian", **kw)
+        # every third run asks for a second estimand (before or after): the unit stage and the aggregate stage of one
+        # estimand must use that estimand's own unit bounds (seeded change C15_D)
+        if estimands is None:
+            estimands = {0: (EST,), 1: (EST, "dem"), 2: ("dem", EST)}[seed % 3]
+        synth.run_client(pre, cur, estimands=estimands, pis=pis, thr=100, features=("x1",), pi_method="gaussian", **kw)
     for c in rec.agg_calls:
         c["boot_iterations"] = boot_iterations
     return rec.agg_calls, info
